@@ -615,8 +615,8 @@ func specTxnLine(cid string, sc *specColl, t *specTxn, toks []string, o string, 
 				}
 				if f[0] == "merge" {
 					col := sc.cols[f[1]]
-					if (col.kind == "string" || col.kind == "record") && col.merge == "concat" {
-						t.resized[key] = true // result length = cur+delta ≠ delta unless cur is empty
+					if (col.kind == "string" && col.merge != "") || col.kind == "record" {
+						t.resized[key] = true // the result's length can differ from the delta's (concat, keep, undecodable record)
 					}
 				}
 				t.changes = append(t.changes, specChange{f[0], off, f[1], v})
@@ -788,22 +788,21 @@ func specCommit(cid string, sc *specColl, t *specTxn, o string, i int,
 	if len(t.insFailed) > 0 {
 		taint(cid, "D9")
 	}
-	// D10: write to and delete of one row, or a write to a row that is not live
+	// D10: write to and delete of one row, or a write to a row that is not live when it is issued
 	del := map[uint32]bool{}
-	ins := map[uint32]bool{}
 	for _, ch := range t.changes {
-		switch ch.what {
-		case "del":
+		if ch.what == "del" {
 			del[ch.off] = true
-		case "ins":
-			ins[ch.off] = true
 		}
 	}
+	insSoFar := map[uint32]bool{}
 	for _, ch := range t.changes {
 		switch ch.what {
+		case "ins":
+			insSoFar[ch.off] = true
 		case "set", "merge", "bool", "key":
 			_, live := sc.rows[ch.off]
-			if del[ch.off] || (!live && !ins[ch.off]) {
+			if del[ch.off] || (!live && !insSoFar[ch.off]) {
 				taint(cid, "D10")
 			}
 		}
